@@ -260,20 +260,51 @@ Definition addrs_all (cfg : config) (st : state) : list (Z * Z) :=
 Inductive op :=
 | Observe (c : Z) (oa : obsaddr)     (* identify delivered an observed address on conn c *)
 | MarkClosed (c : Z)                 (* conn c's IsClosed() becomes true (no notification yet) *)
-| Disconnect (c : Z).                (* Disconnected notification: IsClosed() true, removeConn(c) *)
+| Disconnect (c : Z)                 (* Disconnected notification: IsClosed() true, removeConn(c) *)
+| ObserveDuring (c : Z) (oa : obsaddr) (d : Z).
+    (* as Observe, but conn d is closed and its Disconnected notification is
+       delivered while the worker is inside shouldRecordObservation, at the
+       listenAddrs() call, i.e. before maybeRecordObservation takes o.mu *)
+
+(* does shouldRecordObservation get as far as calling listenAddrs()?  (after
+   the nil / loopback / NAT64 / relay checks and the thin-waist form of the
+   connection's local address) *)
+Definition hook_fires (cfg : config) (c : Z) (oa : obsaddr) : bool :=
+  match conn_info cfg c with
+  | None => false
+  | Some ci =>
+      negb (o_lb oa) && negb (o_n64 oa) && negb (o_relay oa) &&
+      match c_local ci with Some _ => true | None => false end
+  end.
+
+Definition disconnect (cfg : config) (st : state) (c : Z) : state :=
+  remove_conn cfg (mark_closed st c) c.
 
 Definition step (cfg : config) (st : state) (o : op) : state :=
   match o with
   | Observe c oa => record cfg st c oa
   | MarkClosed c => mark_closed st c
-  | Disconnect c => remove_conn cfg (mark_closed st c) c
+  | Disconnect c => disconnect cfg st c
+  | ObserveDuring c oa d =>
+      (* the IsClosed check of recordObservationUnlocked runs under the lock,
+         after the interleaved removeConn: [record] sees the new closed set *)
+      if hook_fires cfg c oa then record cfg (disconnect cfg st d) c oa
+      else record cfg st c oa
   end.
 
-(* what the harness reads after every operation *)
-Record obs := mkO { o_for : list (list Z); o_all : list (Z * Z) }.
+(* was the during-observation disconnect delivered? *)
+Definition fired (cfg : config) (o : op) : bool :=
+  match o with
+  | ObserveDuring c oa _ => hook_fires cfg c oa
+  | _ => false
+  end.
 
-Definition observe (cfg : config) (st : state) : obs :=
-  mkO (map (addrs_for cfg st) (queries cfg)) (addrs_all cfg st).
+(* what the harness reads after every operation (plus, for ObserveDuring,
+   whether its scripted disconnect was delivered) *)
+Record obs := mkO { o_for : list (list Z); o_all : list (Z * Z); o_fired : bool }.
+
+Definition observe (cfg : config) (st : state) (f : bool) : obs :=
+  mkO (map (addrs_for cfg st) (queries cfg)) (addrs_all cfg st) f.
 
 Fixpoint run (cfg : config) (st : state) (ops : list op) : state :=
   match ops with
@@ -284,7 +315,8 @@ Fixpoint run (cfg : config) (st : state) (ops : list op) : state :=
 Fixpoint trace (cfg : config) (st : state) (ops : list op) : list (op * obs) :=
   match ops with
   | [] => []
-  | o :: r => let st' := step cfg st o in (o, observe cfg st') :: trace cfg st' r
+  | o :: r => let st' := step cfg st o in
+              (o, observe cfg st' (fired cfg o)) :: trace cfg st' r
   end.
 
 (* addrs_manager.appendObservedAddrs: the host takes at most
